@@ -253,6 +253,7 @@ def SessionParameters_RIB_AND_FIB_ACK : Nat := 1
 /-! ## the client (client/gribiclient.go) -/
 
 /-- wire numbers of `spb.AFTResult_Status` -/
+def SessionParametersResult_OK : Nat := 0
 def AFTResult_UNSET : Nat := 0
 def AFTResult_FAILED : Nat := 1
 def AFTResult_RIB_PROGRAMMED : Nat := 2
@@ -893,6 +894,11 @@ structure ReconOpX where
   NetworkInstance : String
   Op : Nat
   Entry : Option ReconEntryX
+  deriving DecidableEq, Repr, Inhabited
+
+/-- `fluent.opResult`: the `client.OpResult` under construction -/
+structure OpResultBuilder where
+  r : COpResult
   deriving DecidableEq, Repr, Inhabited
 
 /-- outcome of one iteration of the Modify receive loop: the RPC ends with this error (`none` =
